@@ -132,6 +132,9 @@ def check_django_shorthand(ctx: Ctx, env):
 
 def run(ctx: Ctx, env):
     repo = env.repo
+    from .common import check_mutable_defaults
+    check_mutable_defaults(ctx, env, ("odata_query.sqlalchemy", "odata_query.django"), "R6.no-state-shared-between-calls",
+                           "a query built later is composed with what an earlier one left behind")
     check_django_shorthand(ctx, env)
     m = check_orm_shorthand(ctx, env)
 
